@@ -7,7 +7,7 @@ From JP Require Import Bytes Json Text Strings Den Pointer Rfc6902 Rfc7396 ImplV
 (* Apply: the output encodes exactly the ordered reference result (same theorem as C01, read for
    its order/literal content: aval n = j is syntactic equality of ordered trees) *)
 Theorem C05_apply_ordered : forall o indent p doc t,
-  (has_copy p -> codec_ok) -> plain_opts o -> parse doc = Some t -> root_container t = true -> tnodup t = true ->
+  plain_opts o -> parse doc = Some t -> root_container t = true -> tnodup t = true ->
   Forall op_dom p ->
   match rfc_apply (dia o) (den t) (map den_op p) with
   | Done j => exists n, api_apply o indent p doc = ROut (output o indent (render (o_esc o) n)) /\ aval n = j /\ ngood n
@@ -49,8 +49,7 @@ Theorem C05_empty_patch : forall o indent doc t,
   exists n, api_apply o indent [] doc = ROut (output o indent (render (o_esc o) n)) /\ aval n = den t /\ ngood n.
 Proof.
   intros o indent doc t PO P RC T.
-  assert (NC : has_copy [] -> codec_ok) by (intros [op [[] _]]).
-  exact (api_apply_sim o indent [] doc t NC PO P RC T (Forall_nil _)).
+  exact (api_apply_sim o indent [] doc t PO P RC T (Forall_nil _)).
 Qed.
 Print Assumptions C05_empty_patch.
 
